@@ -17,8 +17,22 @@ pub enum ArenaState {
     Fresh,
     OneByteLeft,
     SharedWithLiveIovec,
+    /// this many bytes left in the arena's current chunk
+    BytesLeft(u8),
 }
-pub const ARENA_STATES: [ArenaState; 3] = [ArenaState::Fresh, ArenaState::OneByteLeft, ArenaState::SharedWithLiveIovec];
+pub const ARENA_STATES: [ArenaState; 11] = [
+    ArenaState::Fresh,
+    ArenaState::OneByteLeft,
+    ArenaState::SharedWithLiveIovec,
+    ArenaState::BytesLeft(2),
+    ArenaState::BytesLeft(3),
+    ArenaState::BytesLeft(4),
+    ArenaState::BytesLeft(5),
+    ArenaState::BytesLeft(6),
+    ArenaState::BytesLeft(7),
+    ArenaState::BytesLeft(8),
+    ArenaState::BytesLeft(9),
+];
 
 pub fn block_name(b: Option<usize>) -> String {
     match b {
@@ -56,15 +70,19 @@ fn chunker_run_inner(stream: &[u8], block: usize, sched: &Sched, arena_state: Ar
     let mut iov: OwningIovec<'static> = OwningIovec::new();
     match arena_state {
         ArenaState::Fresh => {}
-        ArenaState::OneByteLeft => {
+        ArenaState::OneByteLeft | ArenaState::BytesLeft(_) => {
+            let leave = match arena_state {
+                ArenaState::BytesLeft(k) => k as usize,
+                _ => 1,
+            };
             let arena = iov.arena();
             arena.ensure_capacity(1);
             let rem = arena.remaining();
-            let junk = vec![0u8; rem - 1];
-            let got = arena.read_n(FullReader(&junk), rem - 1, NonZeroUsize::MAX).map_err(|e| e.to_string())?;
+            let junk = vec![0u8; rem - leave];
+            let got = arena.read_n(FullReader(&junk), rem - leave, NonZeroUsize::MAX).map_err(|e| e.to_string())?;
             drop(got);
-            if iov.arena().remaining() != 1 {
-                return Err("harness: could not bring the arena to 1 byte remaining".into());
+            if iov.arena().remaining() != leave {
+                return Err("harness: could not bring the arena to the requested fill level".into());
             }
         }
         ArenaState::SharedWithLiveIovec => {
